@@ -295,6 +295,12 @@ def run(tier, seed):
     for a, b in pairs:
         for cfgm in (M.MERGETOOL, M.DEFAULT):
             triples.append((seed45, by[a], by[b], cfgm, ('S45', a, b)))
+    # decisions at the notebook root (nbformat_minor changed by one or both sides)
+    seed44, d44 = M.depth1('S44')
+    by44 = {l: n for l, t, n in d44}
+    for a, b in (('minor:3', 'minor:2'), ('minor:3', 'src@0:tweak1'), ('upgrade45', 'minor:3')):
+        for cfgm in (M.MERGETOOL, M.DEFAULT):
+            triples.append((seed44, by44[a], by44[b], cfgm, ('S44', a, b)))
     if tier == 'thorough':
         for i in range(0, len(d45), 3):
             j = (i * 7 + 3) % len(d45)
